@@ -316,7 +316,9 @@ func newRows(result *updog.Result, groupBy []string) *rows {
 			}
 			r.rows = append(r.rows, row{count: rr.Count, fields: fields})
 		}
-	} else {
+	} else if len(groupBy) == 0 {
+		// only a query without group-by clause yields a single row with the total count;
+		// a grouped query without any matching group yields no rows.
 		r.rows = []row{{count: result.Count}}
 	}
 
